@@ -23,6 +23,29 @@ type Case struct {
 	Basic bool  `json:"basic"`
 	Limit int   `json:"max_input_length"`
 	Full  bool  `json:"all_paths"`
+	// Setting "failing-formatter": date.Formatter is replaced by a function that always returns an error.
+	Setting string `json:"setting,omitempty"`
+}
+
+func judgeFailingFormatter(c Case, w *vkit.W) {
+	defer func() {
+		if p := recover(); p != nil {
+			w.Fail(c, "panic", vkit.PanicDetail(p))
+		}
+	}()
+	orig := date.New(int(c.Y), date.Month(c.M), c.D)
+	ext, basic := ref.DateText(c.Y, c.M, c.D, false), ref.DateText(c.Y, c.M, c.D, true)
+	for _, v := range []struct{ verb, want string }{{"%s", ext}, {"%e", ext}, {"%v", ext}, {"%b", basic}} {
+		if got := fmt.Sprintf(v.verb, orig); got != v.want {
+			w.Fail(c, "output-not-canonical", fmt.Sprintf("with a failing Formatter, Sprintf(%q) of %d-%d-%d = %q, canonical text is %q", v.verb, c.Y, c.M, c.D, got, v.want))
+		}
+	}
+	if got := orig.String(); got != ext {
+		w.Fail(c, "output-not-canonical", fmt.Sprintf("with a failing Formatter, String() of %d-%d-%d = %q, canonical text is %q", c.Y, c.M, c.D, got, ext))
+	}
+	if b, err := orig.MarshalText(); err == nil {
+		w.Fail(c, "formatter-error-swallowed", fmt.Sprintf("with a failing Formatter, MarshalText returned %q without an error", b))
+	}
 }
 
 type (
@@ -204,6 +227,15 @@ func TestCheck(t *testing.T) {
 			t.Fatalf("replay: %v", err)
 		}
 		defer setLimit(c.Limit)()
+		if c.Setting == "failing-formatter" {
+			old := date.Formatter
+			defer func() { date.Formatter = old }()
+			date.Formatter = func(buf []byte, d date.Date, f date.Format) ([]byte, error) {
+				return nil, errors.New("formatter refused")
+			}
+			r.Serial(func(w *vkit.W) { judgeFailingFormatter(c, w); w.Eval(true) })
+			return
+		}
 		r.Serial(func(w *vkit.W) { judge(c, w); w.Eval(true) })
 		return
 	}
@@ -248,6 +280,25 @@ func TestCheck(t *testing.T) {
 	} else {
 		r.Exhaustive("every date of years 0000-9999 x {extended, basic} through DefaultFormatter, MarshalText, String, DefaultParser[string|[]byte], RuleDisableBasic, UnmarshalText; the fmt/JSON/XML/named-type paths on all boundary dates (years 0,1,4,100,400,999,1000,1582,1600,1900,1999-2001,2100,9999; every first/last day of a month; every 28-29 Feb) and a seeded 1/64 sample")
 	}
+
+	// Phase A2: the package-level Formatter is a setting. With a Formatter that fails, String and the fmt verbs fall back to
+	// the default formatter (documented for String) and must still produce the canonical text of the requested format;
+	// MarshalText reports the error instead of producing other text.
+	r.Phase("A2: String and the fmt verbs with a failing package-level Formatter (documented fallback), boundary dates", func() {
+		old := date.Formatter
+		defer func() { date.Formatter = old }()
+		date.Formatter = func(buf []byte, d date.Date, f date.Format) ([]byte, error) {
+			return nil, errors.New("formatter refused")
+		}
+		r.Serial(func(w *vkit.W) {
+			for i := int64(0); i < total; i += 97 {
+				y, m, d := ref.CivilFromDays(ref.Ord0 + i)
+				c := Case{Y: y, M: m, D: d, Limit: -1, Setting: "failing-formatter"}
+				judgeFailingFormatter(c, w)
+				w.Eval(true)
+			}
+		})
+	})
 
 	// long years under raised/disabled limits (globals are set sequentially per limit; workers only read)
 	nLong := int64(r.Pick(40000, 2000000))
